@@ -313,7 +313,7 @@ def run_tree_tie(chk: Check, mr: ModelRun):
     synth = [synthesize(f'{RUN}S{i}', (Node,)) for i in range(3)]
     synth.append(synthesize(f'{RUN}S3', (synth[0],)))
     batch = []
-    n = 350 if chk.quick else 4000
+    n = 400 if chk.quick else 4000
     for _ in range(n):
         root = gen_tree(rng, rng.randint(1, 4), synth)
         tie_tree(chk, root, 'generated tree', batch)
@@ -329,8 +329,12 @@ RISKY_ATTRS = {
     'basenode-member': ['ctx', 'dump', 'clone', 'asjson', 'dumps', 'parseinfo'],
     'node-method': ['children'],
     'private': ['_x'],
+    'python-keyword': ['class', 'def'],
 }
-RISKY_CLASSES = {'synth-module-global': ['Any', 'types', 'annotations', 'BaseNode', 'synthesize']}
+RISKY_CLASSES = {'synth-module-global': ['Any', 'types', 'annotations', 'synthesize'],
+                 'synth-module-class': ['BaseNode', 'SynthNode']}
+RISKY_SHAPES = ['typed-rule-over-untyped-named-ast']
+FIXED_SENTENCES = ['(1,a)', '((1,2),[a (b,3)])', '-(1,2)', '[(a,b) -c]', '(-a,(b,c)) 7']
 BUILTINS = ['int', 'float', 'str', 'bool']
 
 
@@ -355,12 +359,14 @@ class GrammarCase:
         return a
 
     def spec(self, base, allow_chain=True):
+        # every intermediate class is always declared with the same bases inside one grammar
+        # (B1 under Root, B2 directly under the base type); redeclaration is the subject of R1
         r = self.rng.random()
         if not allow_chain or r < 0.45:
             return self.cname(base)
-        if r < 0.8:
-            return f'{self.cname(base)}::{self.cname("B" + self.rng.choice("12"))}'
-        return f'{self.cname(base)}::{self.cname("B" + self.rng.choice("12"))}::{self.cname("Root")}'
+        if r < 0.75:
+            return f'{self.cname(base)}::{self.cname("B2")}'
+        return f'{self.cname(base)}::{self.cname("B1")}::{self.cname("Root")}'
 
     def build(self):
         rng = self.rng
@@ -369,7 +375,9 @@ class GrammarCase:
         self.start_typed = rng.random() < 0.85
         self.item_typed = rng.random() < 0.4
         self.group_style = rng.choice(['bare', 'named', 'override', 'namedlist'])
-        self.neg_typed = rng.random() < 0.3
+        self.neg_typed = rng.random() < 0.3 or self.item_typed
+        if self.risky and self.risky[0] == 'shape':
+            self.item_typed, self.neg_typed = True, False
         self.word_typed = rng.random() < 0.7
         self.have_opt = rng.random() < 0.8
         self.have_wrap = rng.random() < 0.7
@@ -468,7 +476,8 @@ def canon_model(v):
     """canonical form of a model-parse result (nodes, lists, dicts, leaves)"""
     if isinstance(v, BaseNode):
         mro = [c.__name__ for c in type(v).__mro__]
-        d = {k: x for k, x in vars(v).items() if k not in ('ast', 'ctx', 'parseinfo', '_parent_ref')}
+        d = {k: x for k, x in vars(v).items()
+             if k not in ('ast', '_parent_ref') and not (k in ('ctx', 'parseinfo') and x is None)}
         return ['node', type(v).__name__, mro, {k: canon_model(x) for k, x in d.items()}, canon_model(vars(v).get('ast'))]
     if isinstance(v, Mapping):
         return {k: canon_model(x) for k, x in v.items()}
@@ -540,7 +549,8 @@ def strip_conv(v):
 def erase_model(v):
     """erase node wrappers of the real tree; builtin-converted leaves are compared through str()"""
     if isinstance(v, BaseNode):
-        d = {k: x for k, x in vars(v).items() if k not in ('ast', 'ctx', 'parseinfo', '_parent_ref')}
+        d = {k: x for k, x in vars(v).items()
+             if k not in ('ast', '_parent_ref') and not (k in ('ctx', 'parseinfo') and x is None)}
         if d:
             return {k: erase_model(x) for k, x in d.items()}
         return erase_model(vars(v).get('ast'))
@@ -591,11 +601,20 @@ def strip_mro(canon):
     return canon
 
 
-def check_navigation(root, where: str) -> list[str]:
-    """children/parent closure and walker coverage by brute force over vars(); returns failure kinds"""
+def check_navigation(value, where: str) -> list[str]:
+    """children/parent closure and walker coverage by brute force over vars(); returns failure kinds.
+    When the start rule is not annotated the result is a list / dict of trees: every top node is a root."""
+    tops: list = []
+    brute_nodes(value, tops)
+    out: set = set()
+    for top in uniq(tops):
+        if isinstance(top, Node):
+            out |= set(check_navigation_root(top))
+    return sorted(out)
+
+
+def check_navigation_root(root) -> list[str]:
     fails = []
-    if not isinstance(root, Node):
-        return fails
     everything: list = []
     brute_nodes(root, everything, cross=True)
     everything = uniq(everything)
@@ -640,47 +659,60 @@ def check_navigation(root, where: str) -> list[str]:
 
 def run_grammars(chk: Check, mr: ModelRun):
     rng = chk.rng
-    ngram = 26 if chk.quick else 260
-    ninputs = 7 if chk.quick else 16
+    ngram = 28 if chk.quick else 260
+    ninputs = 8 if chk.quick else 16
     tie_batch: list = []
     build_reqs: list = []
     ncases = 0
     risky_plan = []
     for cls, pool in RISKY_ATTRS.items():
-        for nm in (pool if not chk.quick else pool[:2]):
+        for nm in pool:
             risky_plan.append(('attr', cls, nm))
     for cls, pool in RISKY_CLASSES.items():
-        for nm in (pool if not chk.quick else pool[:2]):
+        for nm in pool:
             risky_plan.append(('class', cls, nm))
+    for shp in RISKY_SHAPES:
+        risky_plan.append(('shape', shp, shp))
     plan = [None] * ngram + risky_plan
     for gi, risky in enumerate(plan):
         gc = GrammarCase(rng, next(_seq), risky)
         feature = f'{risky[0]}-{risky[1]}' if risky else 'plain'
         chk.count('grammars.' + ('risky' if risky else 'main'))
 
+        groups: dict = {}
+
         def report(kind, what, text, extra=None):
             rep = {'oracle': kind, 'grammar': gc.text, 'input': text, 'risky_feature': risky}
             rep.update(extra or {})
-            chk.violation(f'{kind}:{feature}', f'{what} [{feature}]', rep)
+            if risky:
+                # one defect shows through several checks: aggregate per grammar (signature built below)
+                grp = kind.split('-')[0] if not kind.startswith('genmodel') else 'genmodel'
+                if 'raises' in kind:
+                    grp = kind
+                groups.setdefault(grp, (what, rep))
+            else:
+                chk.violation(f'{kind}:{feature}', f'{what} [{feature}]', rep)
 
         try:
             gp = tatsu.compile(gc.text, name=gc.tag + 'p')
             gm = tatsu.compile(gc.text, name=gc.tag + 'm', asmodel=True)
-            gs = tatsu.compile(gc.text, name=gc.tag + 's')
-            gt = tatsu.compile(gc.text, name=gc.tag + 't')
-            gg = tatsu.compile(gc.text, name=gc.tag + 'g')
-            src = tatsu.to_python_model(gc.text, name=gc.tag)
+            # semantics are passed per parse; only asmodel=True needs its own compiled model (the compile cache
+            # is keyed by name: C10/D6).  to_python_model with the same name reuses the cached plain model.
+            gs = gt = gg = gp
+            src = tatsu.to_python_model(gc.text, name=gc.tag + 'p')
         except Exception as e:
             report(f'compile-raises-{type(e).__name__}', f'grammar does not compile: {e}'[:300], '')
             continue
         genmod = None
         try:
             genmod = load_model_module(src, f'verif_c07_model_{gc.tag}')
-            gensem_cls = getattr(genmod, f'{gc.tag}ModelBuilderSemantics')
+            gensem_cls = getattr(genmod, f'{gc.tag}pModelBuilderSemantics')
         except Exception as e:
             report(f'genmodel-load-raises-{type(e).__name__}', f'generated model module does not load: {e}'[:300], '',
                    {'module': src[-1500:]})
         texts = sorted({gc.sentence(rng, rng.randint(0, 3)) for _ in range(ninputs)}, key=len)
+        if risky:
+            texts = FIXED_SENTENCES + texts[:3]
         reported = set()
         for text in texts:
             ncases += 1
@@ -723,8 +755,12 @@ def run_grammars(chk: Check, mr: ModelRun):
             # (4) navigation
             for f in check_navigation(m2, 'synth'):
                 once(f'nav-{f}', f'navigation of the synthesized tree: {f}')
-            if isinstance(m2, Node) and not risky:
-                tie_tree(chk, m2, f'parse of {text!r}', tie_batch)
+            if not risky:
+                tops: list = []
+                brute_nodes(m2, tops)
+                for top in uniq(tops)[:2]:
+                    if isinstance(top, Node):
+                        tie_tree(chk, top, f'parse of {text!r}', tie_batch)
             # (5) the generated model module gives the same tree
             if genmod is not None:
                 try:
@@ -738,8 +774,12 @@ def run_grammars(chk: Check, mr: ModelRun):
                           'synthesized': json.dumps(strip_mro(c2), default=str)[:1200]})
                 for f in check_navigation(m3, 'generated'):
                     once(f'genmodel-nav-{f}', f'navigation of the generated-class tree: {f}')
-                if isinstance(m3, Node) and not risky and rng.random() < 0.5:
-                    tie_tree(chk, m3, f'generated-class parse of {text!r}', tie_batch)
+                if not risky and rng.random() < 0.5:
+                    tops = []
+                    brute_nodes(m3, tops)
+                    for top in uniq(tops)[:2]:
+                        if isinstance(top, Node):
+                            tie_tree(chk, top, f'generated-class parse of {text!r}', tie_batch)
             # B1: the derivation for the Coq build/plain/erase functions
             if not risky and len(build_reqs) < (150 if chk.quick else 2000):
                 br = build_request(traced, plain, m2, gc)
@@ -747,6 +787,11 @@ def run_grammars(chk: Check, mr: ModelRun):
                     build_reqs.append(br)
         if gi == 0:
             chk.sample({'grammar': gc.text, 'input': texts[-1] if texts else ''})
+        if risky and groups:
+            sig = f'risky:{feature}:' + '+'.join(sorted(groups))
+            first = groups[sorted(groups)[0]]
+            chk.violation(sig, f'{risky[0]} named {risky[2]!r} ({risky[1]}): ' + '; '.join(groups[g][0] for g in sorted(groups)),
+                          dict(first[1], failing_checks=sorted(groups)))
     chk.obligation('O1: model parse vs plain parse on generated annotated grammars', 'oracle',
                    not any(not v['signature'].startswith('corr:') for v in chk.violations))
     flush_ties(chk, mr, tie_batch, 'N2')
@@ -927,6 +972,8 @@ def constants(chk: Check, mr: ModelRun):
 
 def main():
     chk = Check(PID)
+    for old in vlib.REPLAYS.glob(f'{PID}-{chk.seed}-*.json'):
+        old.unlink()
     chk.rule = ('N1: random trees of synthesized / dataclass / plain Node instances holding lists, tuples, dicts, None, '
                 'strings, _private and BaseNode-member-named attributes, vars() order != field order; O1/N2/B1: generated '
                 'grammars (start/item/pair/group/num/word/neg/opt/wrap/tup with random annotations: none, single, A::B, '
